@@ -202,8 +202,9 @@ class Shadow:
                 if not _is_real_number(r) or not 0 <= r <= 1:
                     raise ShadowInvalid(f"reflectivity {r!r}")
                 r = float(r)              # the documented matrix of the *value*, whatever numeric type carries it
-                th = math.acos(math.sqrt(r))
-                c, s_ = math.cos(th), math.sin(th)
+                # cos(theta) = sqrt(r), sin(theta) = sqrt(1 - r) for theta = arccos(sqrt(r)) in [0, pi/2] - written without
+                # the detour through arccos, which loses sqrt(1 - r) altogether once sqrt(r) rounds to 1
+                c, s_ = math.sqrt(r), math.sqrt(1.0 - r)
                 m = (np.array([[c, 1j * s_], [1j * s_, c]]) if conv == "Rx"
                      else np.array([[c, s_], [s_, -c]], dtype=complex))
             elif kind == "ps":
